@@ -151,14 +151,24 @@ func build(r *rt.Rand, tmp string) *composition {
 	cef := &cloudevents.FormatterFilter{Source: src, SignEventTypes: []string{"plain"}, Signer: func(ctx context.Context, b []byte) (string, error) { return "sig0", nil }}
 	c.ce = append(c.ce, cef)
 	reg("ce-0", cef)
+	noFail := false
 	newSink := func(format string) *sinkInfo {
 		n := len(c.sinks)
-		kind := rt.Pick(r, []string{"file", "writer", "channel", "file"})
+		kind := rt.Pick(r, []string{"file", "writer", "channel", "file", "file", "writer", "channel", "devfull"})
+		if noFail && kind == "devfull" {
+			kind = "file" // the sinks that carry the gated composites must keep what they are given (membership oracle)
+		}
 		s := &sinkInfo{id: fmt.Sprintf("%s-%d", kind+"sink", n), kind: kind, format: format, afterEncrypt: true, encLayers: map[int]bool{}}
 		switch kind {
 		case "file":
 			s.dir = filepath.Join(tmp, fmt.Sprintf("sink%d", n))
 			s.fs = &eventlogger.FileSink{Path: s.dir, FileName: "out.log", Format: format, MaxBytes: rt.Pick(r, []int{0, 400, 2000}), TimestampOnlyOnRotate: r.Bool()}
+			c.files = append(c.files, s.fs)
+			reg(s.id, s.fs)
+		case "devfull":
+			// a FileSink every write of which fails (ENOSPC): its failure and retry path runs next to the other
+			// senders and to the Reopen loops; it must never be reported complete
+			s.fs = &eventlogger.FileSink{Path: "/dev", FileName: "full", Format: format}
 			c.files = append(c.files, s.fs)
 			reg(s.id, s.fs)
 		case "writer":
@@ -248,6 +258,7 @@ func build(r *rt.Rand, tmp string) *composition {
 	gf := &gated.Filter{Broker: b, Expiration: rt.Pick(r, []time.Duration{time.Hour, 150 * time.Microsecond, 2 * time.Millisecond})}
 	c.gatedSinks = []*sinkInfo{}
 	reg("gated-0", gf)
+	noFail = true
 	gs := newSink("json")
 	must(b.RegisterPipeline(eventlogger.Pipeline{PipelineID: "pg", EventType: "gated", NodeIDs: toIDs([]string{"gated-0", "jsonfmt-0", gs.id})}))
 	cs := newSink("json")
@@ -510,6 +521,14 @@ func TestC19(t *testing.T) {
 				s.buf.mu.Lock()
 				data = append(data, s.buf.b.Bytes()...)
 				s.buf.mu.Unlock()
+			case "devfull":
+				for id, n := range expect[sid] {
+					if n > 0 {
+						run.Violation("history-pattern:sink-count", fmt.Sprintf("sink %s writes to a device that is always full, yet Send reported it complete %d times for %s", sid, n, id), wit(""))
+						break
+					}
+				}
+				continue
 			case "channel":
 				s.memMu.Lock()
 				for _, ms := range s.members {
